@@ -20,7 +20,8 @@ var (
 		// a variable): the families are independent of each other
 		"ann": {"k1", "k2", "k3", "io.x/y", "E1"},
 		"env": {"E1", "E2", "E3", "PATH", "k1"},
-		"mnt": {"/m1", "/m1/sub", "/m2", "/dev/d1", "/dev/d2", "/m1/sub/deep"},
+		// "/m3/" and "/m4//x": destinations not in clean form are keys like any other, claimed and released as written
+		"mnt": {"/m1", "/m1/sub", "/m2", "/dev/d1", "/dev/d2", "/m1/sub/deep", "/m3/", "/m4//x"},
 		"dev": {"/dev/d1", "/dev/d2", "/dev/d3", "/dev/null0"},
 		"rlim": {"RLIMIT_NOFILE", "RLIMIT_CORE", "RLIMIT_AS", "RLIMIT_NPROC"},
 		"cdi":  {"vendor.com/dev=a", "vendor.com/dev=b", "other.io/gpu=0"},
@@ -61,8 +62,14 @@ func scalarVal(r *rand.Rand, f string, who int) string {
 	}
 	switch f {
 	case "cgpath":
+		if r.Intn(4) == 0 {
+			return "/cg/shared"
+		}
 		return fmt.Sprintf("/cg/p%d/%d", who, r.Intn(10))
 	case "oom":
+		if r.Intn(4) == 0 {
+			return pick(r, []string{"0", "-500"})
+		}
 		return fmt.Sprint(r.Intn(2001) - 1000)
 	case "blockio", "rdt":
 		if r.Intn(8) == 0 {
@@ -70,7 +77,12 @@ func scalarVal(r *rand.Rand, f string, who int) string {
 		}
 		return fmt.Sprintf("class%d", r.Intn(4))
 	}
-	return fmt.Sprintf("%d-%d", who, r.Intn(8)) // cpus / mems
+	// cpus / mems: one time in three a value from a pool everybody draws from - a plugin may ask for exactly what the
+	// container has already, or for what an earlier plugin asked (it sets the item all the same)
+	if r.Intn(3) == 0 {
+		return pick(r, []string{"0-3", "2,4"})
+	}
+	return fmt.Sprintf("%d-%d", who, r.Intn(8))
 }
 
 func keyedVal(r *rand.Rand, fam string, who int) string {
@@ -84,6 +96,10 @@ func keyedVal(r *rand.Rand, fam string, who int) string {
 		return fmt.Sprintf("%d:%d", h+who, h)
 	case "hp":
 		return fmt.Sprint(1 + who*10 + r.Intn(5))
+	}
+	if fam == "env" && r.Intn(2) == 0 {
+		// values with "=" in them (JAVA_OPTS=-Dmode=fast, base64 padding): a variable's name ends at the first "="
+		return fmt.Sprintf("v%d=%d%s", who, r.Intn(5), pick(r, []string{"", "=", "=="}))
 	}
 	return fmt.Sprintf("v%d-%d", who, r.Intn(5))
 }
